@@ -444,11 +444,52 @@ def stage(dest, repo=DEFAULT_REPO, harness_dir=DEFAULT_HARNESS_DIR, prelude=DEFA
     }
 
 
-def unstage(dest):
-    """Remove a scratch copy (and its target dir if it has one inside)."""
+DEFAULT_TARGET_DIR = os.path.join(VERIF, '.cache', 'kani-target')
+
+
+def prune_target(dest, target_dir=DEFAULT_TARGET_DIR):
+    """Remove from a shared cargo target dir the build output of the crate
+    staged at `dest` (cargo keys it by the package path, so every scratch
+    copy leaves 10-100 MB behind). Dependencies stay cached. Returns the list
+    of removed directories."""
+    dest = os.path.abspath(dest).rstrip('/') + '/'
+    needle = dest.encode()
+    removed = []
+    if not os.path.isdir(target_dir):
+        return removed
+    for root, dirs, files in os.walk(target_dir):
+        # .../build/<package>/<hash>/out/*.d list the absolute source paths
+        if os.path.basename(root) != 'out':
+            continue
+        dirs[:] = []
+        hit = False
+        for fn in files:
+            if not fn.endswith('.d'):
+                continue
+            try:
+                with open(os.path.join(root, fn), 'rb') as f:
+                    if needle in f.read():
+                        hit = True
+                        break
+            except OSError:
+                pass
+        if hit:
+            victim = os.path.dirname(root)
+            shutil.rmtree(victim, ignore_errors=True)
+            removed.append(victim)
+    return removed
+
+
+def unstage(dest, target_dir=DEFAULT_TARGET_DIR):
+    """Remove a scratch copy and what it left in the shared target dir."""
     dest = os.path.abspath(dest)
-    if os.path.basename(dest).startswith('verif-') and os.path.isdir(dest):
-        shutil.rmtree(dest, ignore_errors=True)
+    removed = []
+    if os.path.basename(dest).startswith('verif-'):
+        if target_dir:
+            removed = prune_target(dest, target_dir)
+        if os.path.isdir(dest):
+            shutil.rmtree(dest, ignore_errors=True)
+    return removed
 
 
 def main(argv):
